@@ -252,6 +252,9 @@ fn history<B: Backend>(acc: &mut Acc, op: Op) {
         Op::RandomSecret => acc.tier.pick(5_000, 100_000),
     };
     let mut seen: std::collections::HashMap<&'static str, HashSet<Vec<u8>>> = std::collections::HashMap::new();
+    // per fresh field: (first value, OR over all outputs of value XOR first value): a byte position
+    // whose accumulated difference stays 0 never changed - it is not drawn from the RNG
+    let mut varied: std::collections::HashMap<&'static str, (Vec<u8>, Vec<u8>)> = std::collections::HashMap::new();
     let mut texts: HashSet<u64> = HashSet::new();
     let intercept = B::GETRANDOM && !(op == Op::Sign) && !(op == Op::RandomSecret && v1);
     for i in 0..n {
@@ -271,6 +274,12 @@ fn history<B: Backend>(acc: &mut Acc, op: Op) {
             if bytes.is_empty() {
                 acc.fail(Fail::new(format!("C16/{name}/{op:?}/history/missing-{fname}"), "output lacks the field".to_string()), case.clone());
                 return;
+            }
+            let e = varied.entry(fname).or_insert_with(|| (bytes.clone(), vec![0u8; bytes.len()]));
+            if e.0.len() == bytes.len() {
+                for (k, b) in bytes.iter().enumerate() {
+                    e.1[k] |= b ^ e.0[k];
+                }
             }
             if !seen.entry(fname).or_default().insert(bytes.clone()) {
                 acc.fail(
@@ -293,6 +302,26 @@ fn history<B: Backend>(acc: &mut Acc, op: Op) {
         if i >= 1 {
             acc.nt(mix(fnv(format!("{name}{op:?}").as_bytes()), i as u64));
         }
+    }
+    // entropy of the fresh fields: after n >= 64 outputs every byte of a nonce / salt / random key has
+    // changed at least once (a byte that never changes has probability 256^-(n-1) if it is random).
+    // Structured fields are exempt: DER-encoded keys, point encodings and signatures have fixed bytes.
+    if n >= 64 {
+        for (fname, (first, diff)) in &varied {
+            let random_field = matches!(*fname, "nonce" | "salt") || (*fname == "key" && !(op == Op::RandomSecret && (v1 || B::VER == Ver::V2 || B::VER == Ver::V4)));
+            if !random_field {
+                continue;
+            }
+            let constant: Vec<usize> = diff.iter().enumerate().filter(|(_, d)| **d == 0).map(|(k, _)| k).collect();
+            if !constant.is_empty() {
+                acc.fail(
+                    Fail::new(format!("C16/{name}/{op:?}/history/constant-bytes-in-{fname}"), format!("over {n} operations bytes {constant:?} of the {fname} never changed (always as in {}): that part of the field is not random", hx(first))),
+                    json!({"op": format!("{op:?}"), "history_index": n}),
+                );
+                return;
+            }
+        }
+        acc.class("history:every-byte-of-nonce/salt/key-varies");
     }
     acc.class_n(&format!("history:{op:?}"), n as u64);
     if intercept {
@@ -461,7 +490,7 @@ pub fn def() -> PropertyDef {
     PropertyDef {
         id: "C16",
         level: "fault_enumeration",
-        rule: "(1) histories: per back end and operation kind {encrypt, sign (randomised signers), PIE wrap and password wrap (of a local and of a secret key), key seal, LocalKey::random, SecretKey::random} N consecutive operations with IDENTICAL keys and messages (N = 20000 / 5000 / 100..3000 for RSA- and ECDH-bound kinds in quick, up to 10^5 thorough); the nonce / salt / ephemeral key / signature / key of every output goes into a set: no repeats, no identical outputs; on getrandom back ends the draw log must show the draw(s) of the specified width and the output field must be the prescribed function of the drawn bytes (v3/v4 nonce = draw, v1/v2 nonce = MAC(draw, m), PBKW salt/nonce = draws, epk = [draw]G, c = r^e, generated key = draw); (2) fault sequences on getrandom back ends: for every operation kind and EVERY draw index it makes, the draw fails after filling 0, half or all of the buffer (including the extra draws of rejection-sampling retry paths, reached by scripting an all-ones / all-zero first candidate): the result must be Err (no panic, no output) and the next operation must succeed. Non-trivial iff the operation has a predecessor with identical inputs / an injected failure at index >= 1 or with a partially filled buffer",
+        rule: "(1) histories: per back end and operation kind {encrypt, sign (randomised signers), PIE wrap and password wrap (of a local and of a secret key), key seal, LocalKey::random, SecretKey::random} N consecutive operations with IDENTICAL keys and messages (N = 20000 / 5000 / 100..3000 for RSA- and ECDH-bound kinds in quick, up to 10^5 thorough); the nonce / salt / ephemeral key / signature / key of every output goes into a set: no repeats, no identical outputs; on getrandom back ends the draw log must show the draw(s) of the specified width and the output field must be the prescribed function of the drawn bytes (v3/v4 nonce = draw, v1/v2 nonce = MAC(draw, m), PBKW salt/nonce = draws, epk = [draw]G, c = r^e, generated key = draw); every byte position of every nonce / salt / random key must change at least once over a history (a constant byte means that part is not drawn from the RNG); (2) fault sequences on getrandom back ends: for every operation kind and EVERY draw index it makes, the draw fails after filling 0, half or all of the buffer (including the extra draws of rejection-sampling retry paths, reached by scripting an all-ones / all-zero first candidate): the result must be Err (no panic, no output) and the next operation must succeed. Non-trivial iff the operation has a predecessor with identical inputs / an injected failure at index >= 1 or with a partially filled buffer",
         assumptions: vec![
             "aws-lc (RAND_bytes), libsodium (randombytes) and rsa::OsRng (getrandom 0.2) cannot be failed in-process; for them only the history part applies",
             "getrandom back ends draw from a seeded deterministic stream during histories (distinct per draw), so a repeat can only come from the library",
